@@ -3104,7 +3104,20 @@ func (a *AccumulatedServiceOutput) Encode(e *Encoder) error {
 		return err
 	}
 
-	for accumulatedServiceHash := range *a {
+	// A set is serialised in the order of its elements (service id, then hash),
+	// never in Go's randomised map iteration order.
+	keys := make([]AccumulatedServiceHash, 0, len(*a))
+	for k := range *a {
+		keys = append(keys, k)
+	}
+	sort.Slice(keys, func(i, j int) bool {
+		if keys[i].ServiceID != keys[j].ServiceID {
+			return keys[i].ServiceID < keys[j].ServiceID
+		}
+		return bytes.Compare(keys[i].Hash[:], keys[j].Hash[:]) < 0
+	})
+
+	for _, accumulatedServiceHash := range keys {
 		// AccumulatedServiceHash
 		if err := accumulatedServiceHash.Encode(e); err != nil {
 			return err
